@@ -83,7 +83,7 @@ impl Prop for C09 {
         "C09"
     }
     fn rule(&self) -> String {
-        "pairs (sugared module, hand-expanded module) built by the model: (a) value references through chains of 1..4 references and named numbers of a referenced type as constraint endpoints of type assignments and components; (b) COMPONENTS OF at every position of a component list of length <=3, with/without an extension marker in the referencing and in the referenced type, two levels deep, SEQUENCE and SET; (c) parameterized types with 1..3 type/value parameters instantiated 1..3 times; (d) selection of every alternative of a 1..3-alternative CHOICE; (e) a fixed-type field of an object class (INTEGER, BOOLEAN, constrained OCTET STRING, type reference); further forms: value references as string / bit-string sizes, in alternatives, OF elements, nested components and extensible ranges; parameterized SEQUENCE OF, parameter used twice with a constrained argument, value parameters as SIZE and as both range ends, inline constructed and reference arguments, instantiation as a component; selection of alternatives whose type is a reference, tagged, or SEQUENCE OF reference; each also with the referenced definitions in a second module and imported; every pair × every assignment of the names involved to the pools {sorts-before, sorts-after} relative to the referencing name × every textual order of the (<=4) assignments (quick: rotations and reversal) × tagging default {AUTOMATIC, EXPLICIT}. Oracle: differential — Ok/Err class and warning count agree and the syn projection (minus docs) of every target type and of the anonymous items it hoists is identical. Non-trivial: both modules compiled and were compared.".into()
+        "pairs (sugared module, hand-expanded module) built by the model: (a) value references through chains of 1..4 references and named numbers of a referenced type as constraint endpoints of type assignments and components; (b) COMPONENTS OF at every position of a component list of length <=3, with/without an extension marker in the referencing and in the referenced type, two levels deep, SEQUENCE and SET; (c) parameterized types with 1..3 type/value parameters instantiated 1..3 times; (d) selection of every alternative of a 1..3-alternative CHOICE; (e) a fixed-type field of an object class (INTEGER, BOOLEAN, constrained OCTET STRING, type reference); further forms: value references as string / bit-string sizes, in alternatives, OF elements, nested components and extensible ranges; parameterized SEQUENCE OF, parameter used twice with a constrained argument, value parameters as SIZE and as both range ends, inline constructed and reference arguments, instantiation as a component; selection of alternatives whose type is a reference, tagged, or SEQUENCE OF reference; combinations in which an expansion step (selection, COMPONENTS OF, instantiation, class field) copies a constraint that itself contains a value reference or named number, with both names drawn from both pools; each also with the referenced definitions in a second module and imported; every pair × every assignment of the names involved to the pools {sorts-before, sorts-after} relative to the referencing name × every textual order of the (<=4) assignments (quick: rotations and reversal) × tagging default {AUTOMATIC, EXPLICIT}. Oracle: differential — Ok/Err class and warning count agree and the syn projection (minus docs) of every target type and of the anonymous items it hoists is identical. Non-trivial: both modules compiled and were compared.".into()
     }
     fn enumerate(&self, tier: Tier, _seed: u64) -> Vec<Case> {
         let mut out: Vec<Case> = vec![];
@@ -252,6 +252,31 @@ impl Prop for C09 {
             push("selection", format!("selection|names={pool}|alt-type=reference"), vec![tgt.clone(), ch.clone(), format!("Mid ::= a < {pool}")], vec![tgt.clone(), ch.clone(), "Mid ::= Tgt".into()], vec!["Mid"]);
             push("selection", format!("selection|names={pool}|alt-type=tagged"), vec![tgt.clone(), ch.clone(), format!("Mid ::= b < {pool}")], vec![tgt.clone(), ch.clone(), "Mid ::= [3] BOOLEAN".into()], vec!["Mid"]);
             push("selection", format!("selection|names={pool}|alt-type=of-reference"), vec![tgt.clone(), ch.clone(), format!("Mid ::= c < {pool}")], vec![tgt.clone(), ch.clone(), "Mid ::= SEQUENCE OF Tgt".into()], vec!["Mid"]);
+        }
+        // ---- combinations: an expansion step copies a constraint that itself needs a value reference / named number resolved
+        for pool in ["Aaa", "Zzz"] {
+            for vpool in ["aaval", "zzval"] {
+                let v = format!("{vpool} INTEGER ::= 9");
+                let nn = "Nn ::= INTEGER { lo(2), hi(9) }".to_string();
+                let lab = |what: &str| format!("combined|{what}|names={pool}+{vpool}");
+                let ch = format!("{pool} ::= CHOICE {{ a INTEGER (0..{vpool}), b OCTET STRING (SIZE (1..{vpool})), c Nn (lo..hi) }}");
+                push("combined", lab("selection-of-valref-alternative"), vec![v.clone(), nn.clone(), ch.clone(), format!("Mid ::= a < {pool}")], vec![v.clone(), nn.clone(), ch.clone(), "Mid ::= INTEGER (0..9)".into()], vec!["Mid"]);
+                push("combined", lab("selection-of-size-valref-alternative"), vec![v.clone(), nn.clone(), ch.clone(), format!("Mid ::= b < {pool}")], vec![v.clone(), nn.clone(), ch.clone(), "Mid ::= OCTET STRING (SIZE (1..9))".into()], vec!["Mid"]);
+                push("combined", lab("selection-of-named-number-alternative"), vec![v.clone(), nn.clone(), ch.clone(), format!("Mid ::= c < {pool}")], vec![v.clone(), nn.clone(), ch.clone(), "Mid ::= Nn (2..9)".into()], vec!["Mid"]);
+                push("combined", lab("selection-component-of-valref-alternative"), vec![v.clone(), nn.clone(), ch.clone(), format!("Mid ::= SEQUENCE {{ f a < {pool}, g BOOLEAN }}")], vec![v.clone(), nn.clone(), ch.clone(), "Mid ::= SEQUENCE { f INTEGER (0..9), g BOOLEAN }".into()], vec!["Mid"]);
+                let sq = format!("{pool} ::= SEQUENCE {{ r0 INTEGER (0..{vpool}), r1 Nn (lo..hi) OPTIONAL }}");
+                push("combined", lab("components-of-valref-members"), vec![v.clone(), nn.clone(), sq.clone(), format!("Mid ::= SEQUENCE {{ o0 BOOLEAN, COMPONENTS OF {pool} }}")], vec![v.clone(), nn.clone(), sq.clone(), "Mid ::= SEQUENCE { o0 BOOLEAN, r0 INTEGER (0..9), r1 Nn (2..9) OPTIONAL }".into()], vec!["Mid"]);
+                let pt = format!("{pool} {{ T }} ::= SEQUENCE {{ v T, n INTEGER (0..{vpool}) }}");
+                push("combined", lab("parameterized-with-valref-body-and-argument"), vec![v.clone(), pt.clone(), format!("Mid ::= {pool} {{ INTEGER (1..{vpool}) }}")], vec![v.clone(), "Mid ::= SEQUENCE { v INTEGER (1..9), n INTEGER (0..9) }".into()], vec!["Mid"]);
+            }
+        }
+        for pool in ["AAA", "ZZZ"] {
+            for vpool in ["aaval", "zzval"] {
+                let v = format!("{vpool} INTEGER ::= 9");
+                let cl = format!("{pool} ::= CLASS {{ &id INTEGER (0..{vpool}) UNIQUE, &Type }}");
+                push("combined", format!("combined|class-field-with-valref|names={pool}+{vpool}"), vec![v.clone(), cl.clone(), format!("Mid ::= {pool}.&id")], vec![v.clone(), cl.clone(), "Mid ::= INTEGER (0..9)".into()], vec!["Mid"]);
+                push("combined", format!("combined|class-field-component-with-valref|names={pool}+{vpool}"), vec![v.clone(), cl.clone(), format!("Mid ::= SEQUENCE {{ f {pool}.&id }}")], vec![v.clone(), cl.clone(), "Mid ::= SEQUENCE { f INTEGER (0..9) }".into()], vec!["Mid"]);
+            }
         }
         // ---- (e) fixed-type field of an object class
         for pool in ["AAA", "ZZZ"] {
